@@ -140,7 +140,6 @@ def main():
     n_own = 0
     for sid in sorted(res):
         r = res[sid]
-        rules = sorted(set(v["rule"] for v in r.get("own_violations", [])))
         inst = "; ".join("%s[%s]" % (v["rule"], (v["instance"] or "")[:50]) for v in r.get("own_violations", [])[:2])
         meta = json.load(open(os.path.join(S, sid, "meta.json")))
         note = AFTER.get(sid, "")
@@ -150,6 +149,8 @@ def main():
             note = (note + "; " if note else "") + meta["status"]
         if r["status"] == "detected":
             n_own += 1
+        elif r["status"] not in ("missed",):
+            note = ("[%s] " % r["status"]) + note
         also = (" (also: %s)" % ",".join(r["also_fired"])) if r.get("also_fired") else ""
         out.append("| %s | %s | %s | %s%s | %s |" % (sid, WHAT.get(sid, ""), "reported" if sid in FIRST else "missed",
                                                     inst if r["status"] == "detected" else "—", also, note))
